@@ -199,8 +199,6 @@ def formula(d, op):
             continue
         extra.append(term_z3(Bc) != 0)
         atoms |= Bc.all_atoms()
-    if extra:
-        z = z3.And(z, *extra) if op != '!=' and False else z
     sb = SymBool(z, atoms)
     # base non-zero facts are domain assumptions of the expression; attach as global assumptions
     ex = current()
@@ -472,6 +470,7 @@ def model_to_env(model, digits=30):
             continue
         v = _Z3VARS.get(i)
         if v is None:
+            env[W.names[i]] = Fraction(0)   # not constrained by the query: any value works
             continue
         val = model.eval(v, model_completion=True)
         env[W.names[i]] = z3val_to_fraction(val, digits)
